@@ -16,6 +16,7 @@ import (
 
 	"github.com/emitter-io/emitter/internal/broker"
 	"github.com/emitter-io/emitter/internal/config"
+	"github.com/emitter-io/emitter/internal/message"
 	"github.com/emitter-io/emitter/internal/network/mqtt"
 	"github.com/emitter-io/emitter/internal/provider/logging"
 	"github.com/emitter-io/emitter/internal/security"
@@ -267,7 +268,15 @@ type keyInfo struct {
 	name  string
 }
 
-func history(lic license.License, mqttMode bool, nClients, steps int) (string, map[string]interface{}) {
+// scriptStep forces the choices of one step of a history (directed scenarios).
+type scriptStep struct {
+	ci    int
+	x     int    // selects the kind of request like the random draw does: 0 sub, 30 unsub, 50 pub, 85 presence, 99 end
+	topic string // channel (without key) for sub / unsub / pub / presence
+	how   int    // way of ending
+}
+
+func history(lic license.License, mqttMode bool, nClients, steps int, script []scriptStep) (string, map[string]interface{}) {
 	r := cfg.Rng
 	c := config.NewDefault().(*config.Config)
 	c.License = lic.String()
@@ -333,7 +342,7 @@ func history(lic license.License, mqttMode bool, nClients, steps int) (string, m
 	w.pending = make([][]mqtt.Message, nClients)
 
 	channels := []string{"a/", "a/b/", "b/a/", "a/a/", "b/b/", "a/b/c/", "b/", "x/x/y/", "y/", "a/+/", "a/#/", "+/b/", "#/", "a//b/", "a/b", "a b/", "", "a/?ttl=300", "a/b/?last=2", "a/b/?last=0", "a/?me=0", "a/b/c/?ttl=200&me=0"}
-	staticChannels := []string{"a/", "a/b/", "b/a/", "a/a/", "b/b/", "a/b/c/", "b/", "x/x/y/", "y/", "a/b/?ttl=500", "a/?me=0", "a/b/c/?ttl=200&me=0", "a/?ttl=100", "a/b/?me=1"}
+	staticChannels := []string{"a/", "a/b/", "b/a/", "a/a/", "b/b/", "a/b/c/", "b/", "x/x/y/", "y/", "a/b/?ttl=500", "a/?me=0", "a/b/c/?ttl=200&me=0", "a/?ttl=100", "a/b/?me=1", "a/b/?ttl=2592001", "b/?ttl=31536000", "a/?ttl=2592000"}
 	usernames := []string{"", "alice", "bob", "", "carol"}
 
 	var ops []string
@@ -349,8 +358,16 @@ func history(lic license.License, mqttMode bool, nClients, steps int) (string, m
 		kinds[kind]++
 	}
 
+	if script != nil {
+		steps = len(script)
+	}
 	for s := 0; s < steps; s++ {
 		ci := r.Intn(nClients)
+		var sc *scriptStep
+		if script != nil {
+			sc = &script[s]
+			ci = sc.ci
+		}
 		cl := w.clients[ci]
 		if !cl.open {
 			if r.Intn(3) == 0 { // reconnect as a new connection in the same slot
@@ -399,6 +416,9 @@ func history(lic license.License, mqttMode bool, nClients, steps int) (string, m
 			continue
 		}
 		x := r.Intn(100)
+		if sc != nil {
+			x = sc.x
+		}
 		switch {
 		case x < 26: // subscribe
 			k := keys[r.Intn(len(keys))]
@@ -406,6 +426,9 @@ func history(lic license.License, mqttMode bool, nClients, steps int) (string, m
 			topic := k.str + "/" + ch
 			if r.Intn(30) == 0 {
 				topic = "garbage"
+			}
+			if sc != nil {
+				topic = keys[0].str + "/" + sc.topic
 			}
 			mid := nextMid(cl)
 			qos := uint8(r.Intn(2))
@@ -419,6 +442,9 @@ func history(lic license.License, mqttMode bool, nClients, steps int) (string, m
 			if len(heldBy[ci]) > 0 && r.Intn(10) < 8 {
 				j := r.Intn(len(heldBy[ci]))
 				topic = heldBy[ci][j]
+			}
+			if sc != nil {
+				topic = keys[0].str + "/" + sc.topic
 			}
 			mid := nextMid(cl)
 			cl.send(&mqtt.Unsubscribe{Header: mqtt.Header{QOS: 1}, MessageID: mid, Topics: []mqtt.TopicQOSTuple{{Topic: []byte(topic)}}})
@@ -434,6 +460,9 @@ func history(lic license.License, mqttMode bool, nClients, steps int) (string, m
 			topic := k.str + "/" + ch
 			if r.Intn(12) == 0 {
 				topic = vlib.Pick2(r, "l1", "l2", "zz9") // link names (maybe undefined)
+			}
+			if sc != nil {
+				topic = keys[0].str + "/" + sc.topic
 			}
 			mid := nextMid(cl)
 			payload := []byte(fmt.Sprintf("m%d-%d", ci, s))
@@ -458,6 +487,9 @@ func history(lic license.License, mqttMode bool, nClients, steps int) (string, m
 			ch := vlib.Pick2(r, "a/", "a/b/", "b/", "a/b/c/", "a", "b/a/")
 			status := r.Intn(3) != 0
 			changes := r.Intn(3) // 0 = absent, 1 = true, 2 = false
+			if sc != nil {
+				k, ch, status, changes = keys[0], sc.topic, true, 0
+			}
 			m := map[string]interface{}{"key": k.str, "channel": ch, "status": status}
 			if changes == 1 {
 				m["changes"] = true
@@ -476,12 +508,17 @@ func history(lic license.License, mqttMode bool, nClients, steps int) (string, m
 			w.pending[ci] = append(w.pending[ci], got...)
 			step(ci, "OPing", "ping")
 		default: // the connection ends: DISCONNECT, abrupt close, or a malformed packet
-			how := r.Intn(3)
+			how := r.Intn(4)
+			if sc != nil {
+				how = sc.how
+			}
 			switch how {
 			case 0:
 				cl.send(&mqtt.Disconnect{})
 			case 1:
 				cl.conn.Close()
+			case 3:
+				cl.sendRaw([]byte{0x82, 0x01, 0x00}) // SUBSCRIBE too short for its message id: the decoder panics
 			default:
 				cl.sendRaw([]byte{0x30, 0x02, 0x00, 0x09}) // PUBLISH whose topic length exceeds the packet
 			}
@@ -512,14 +549,94 @@ func history(lic license.License, mqttMode bool, nClients, steps int) (string, m
 		dump = append(dump, vlib.Pair(vlib.NList(ws), vlib.N(uint64(p.Sub))))
 	}
 	sort.Strings(dump)
+	// what the message store holds at the end: channel, payload and ttl of every stored message
+	var stored []string
+	for _, lvl := range []string{"a", "b", "x", "y"} {
+		f, _ := svc.VerifStorage().Query(message.Ssid{lic.Contract(), hash.OfString(lvl)}, time.Unix(0, 0), time.Unix(0, 0), nil, 100000)
+		for _, m := range f {
+			stored = append(stored, vlib.Pair(vlib.Pair(vlib.Bytes(m.Channel), vlib.Bytes(m.Payload)), vlib.N(uint64(m.TTL))))
+		}
+	}
+	sort.Strings(stored)
 	w.watcher.conn.Close()
 	w.helper.conn.Close()
 	for _, cl := range w.clients {
 		cl.conn.Close()
 	}
 	return vlib.App("CBroker", vlib.Bool(mqttMode), vlib.N(uint64(lic.Contract())), vlib.N(uint64(lic.Signature())), vlib.Z(now),
-			vlib.List(keyTerms), vlib.N(uint64(nClients)), vlib.List(ops), vlib.List(dump), vlib.N(uint64(hash.OfString(w.watcher.guid))), vlib.N(uint64(hash.OfString(w.helper.guid)))),
+			vlib.List(keyTerms), vlib.N(uint64(nClients)), vlib.List(ops), vlib.List(dump), vlib.List(stored), vlib.N(uint64(hash.OfString(w.watcher.guid))), vlib.N(uint64(hash.OfString(w.helper.guid)))),
 		map[string]interface{}{"clients": nClients, "steps": len(ops), "kinds": kinds, "mqtt": mqttMode}
+}
+
+// burst: a watcher of presence changes stops reading while another client makes n subscriptions
+// in one packet (more than the notification queue holds); afterwards it must have been told about
+// every one of them, in order.
+func burst(lic license.License, n int) (string, map[string]interface{}) {
+	c := config.NewDefault().(*config.Config)
+	c.License = lic.String()
+	c.Cluster = nil
+	svc, err := broker.NewService(context.Background(), c)
+	if err != nil {
+		panic(err)
+	}
+	logging.Logger = quiet{}
+	defer svc.Close()
+	cipher, _ := lic.Cipher()
+	k := security.Key(make([]byte, 24))
+	k.SetSalt(99)
+	k.SetMaster(1)
+	k.SetContract(lic.Contract())
+	k.SetSignature(lic.Signature())
+	k.SetPermissions(security.AllowRead | security.AllowWrite | security.AllowPresence)
+	k.SetTarget("a/#/")
+	key, _ := cipher.EncryptKey(k)
+	// the watcher reads synchronously, so that it can stop reading
+	wa, wb := net.Pipe()
+	svc.VerifAttach(wb)
+	rd := bufio.NewReaderSize(wa, 65536)
+	(&mqtt.Connect{ClientID: []byte("w")}).EncodeTo(wa)
+	mqtt.DecodePacket(rd, 1<<20)
+	req, _ := json.Marshal(map[string]interface{}{"key": key, "channel": "a/", "status": false, "changes": true})
+	(&mqtt.Publish{Header: mqtt.Header{QOS: 1}, MessageID: 7, Topic: []byte("emitter/presence/"), Payload: req}).EncodeTo(wa)
+	for {
+		m, err := mqtt.DecodePacket(rd, 1<<20)
+		if err != nil || m.Type() == mqtt.TypeOfPuback {
+			break
+		}
+	}
+	sub := newClient(svc, 0)
+	sub.send(&mqtt.Connect{ClientID: []byte("s")})
+	sub.waitFor(isType(mqtt.TypeOfConnack))
+	var topics []mqtt.TopicQOSTuple
+	var want []string
+	for i := 0; i < n; i++ {
+		ch := fmt.Sprintf("a/%d/", i)
+		topics = append(topics, mqtt.TopicQOSTuple{Topic: []byte(key + "/" + ch)})
+		want = append(want, vlib.Str(ch))
+	}
+	go sub.send(&mqtt.Subscribe{Header: mqtt.Header{QOS: 1}, MessageID: 2, Subscriptions: topics})
+	time.Sleep(400 * time.Millisecond) // the watcher is not reading
+	var got []string
+	wa.SetReadDeadline(time.Now().Add(4 * time.Second))
+	for len(got) < n {
+		m, err := mqtt.DecodePacket(rd, 1<<20)
+		if err != nil {
+			break
+		}
+		if p, ok := m.(*mqtt.Publish); ok && string(p.Topic) == "emitter/presence/" {
+			var ev struct {
+				Event   string `json:"event"`
+				Channel string `json:"channel"`
+			}
+			json.Unmarshal(p.Payload, &ev)
+			if ev.Event == "subscribe" {
+				got = append(got, vlib.Str(ev.Channel))
+			}
+		}
+	}
+	wa.Close()
+	sub.conn.Close()
+	return vlib.App("CBurst", vlib.List(want), vlib.List(got)), map[string]interface{}{"op": "presence burst", "subscriptions": n, "notified": len(got)}
 }
 
 func countOpen(cs []*client) int {
@@ -541,8 +658,42 @@ func main() {
 	lics := []license.License{license.NewV1(), license.NewV2(), license.NewV3()}
 	n := 90 * cfg.Mult
 	for i := 0; i < n; i++ {
-		t, h := history(lics[i%3], i%5 == 4, 2+r.Intn(3), 12+r.Intn(28))
+		t, h := history(lics[i%3], i%5 == 4, 2+r.Intn(3), 12+r.Intn(28), nil)
 		sh.Add(t, h, fmt.Sprintf("history/%d-clients", h["clients"]), true)
 	}
-	sh.Finish("sessions of 2-4 clients (connect with/without username and last will, subscribe, unsubscribe, publish with retain / ttl / me=0 / links, link and presence requests, ping, three ways of ending, reconnects) over channels a/ a/b/ b/a/ a/a/ b/b/ a/b/c/ b/ x/x/y/ y/ with wildcards and options, nine keys (targets #/ a/#/ a/b/ b/#/, masks incl. read-only, write-only, extendable, expired, no-load), emitter and mqtt matcher; every request acknowledged before the next; presence notifications flushed by a FIFO barrier; non-trivial: all")
+	// directed scenarios: two filters of one connection whose bookkeeping keys collide, every order
+	// of subscribing and of removing them (by UNSUBSCRIBE or by the connection ending in four ways)
+	pairs := [][2]string{{"a/b/", "b/a/"}, {"x/x/y/", "y/"}, {"a/a/", "b/b/"}}
+	k := 0
+	for _, pr := range pairs {
+		for so := 0; so < 2; so++ {
+			for uo := 0; uo < 2; uo++ {
+				for fin := 0; fin < 2; fin++ {
+					f := [2]string{pr[so], pr[1-so]}
+					u := [2]string{f[uo], f[1-uo]}
+					pubs := func() []scriptStep {
+						return []scriptStep{{ci: 1, x: 50, topic: pr[0]}, {ci: 1, x: 50, topic: pr[1]}, {ci: 1, x: 85, topic: pr[0]}, {ci: 1, x: 85, topic: pr[1]}}
+					}
+					sc := []scriptStep{{ci: 0}, {ci: 1}, {ci: 0, x: 0, topic: f[0]}, {ci: 0, x: 0, topic: f[1]}}
+					sc = append(sc, pubs()...)
+					sc = append(sc, scriptStep{ci: 0, x: 30, topic: u[0]})
+					sc = append(sc, pubs()...)
+					if fin == 0 {
+						sc = append(sc, scriptStep{ci: 0, x: 30, topic: u[1]})
+					} else {
+						sc = append(sc, scriptStep{ci: 0, x: 99, how: k % 4})
+					}
+					sc = append(sc, pubs()...)
+					t, h := history(lics[k%3], false, 2, 0, sc)
+					sh.Add(t, h, "scenario/colliding-filters", true)
+					k++
+				}
+			}
+		}
+	}
+	for _, n := range []int{150, 260} {
+		t, h := burst(lics[n%3], n)
+		sh.Add(t, h, "scenario/presence-burst", true)
+	}
+	sh.Finish("sessions of 2-4 clients (connect with/without username and last will, subscribe, unsubscribe, publish with retain / ttl / me=0 / links, link and presence requests, ping, four ways of ending incl. a packet on which the decoder panics, reconnects; directed scenarios for filters whose bookkeeping keys collide; presence watcher that stops reading during a burst of 150 / 260 subscriptions) over channels a/ a/b/ b/a/ a/a/ b/b/ a/b/c/ b/ x/x/y/ y/ with wildcards and options, nine keys (targets #/ a/#/ a/b/ b/#/, masks incl. read-only, write-only, extendable, expired, no-load), emitter and mqtt matcher; every request acknowledged before the next; presence notifications flushed by a FIFO barrier; non-trivial: all")
 }
